@@ -31,7 +31,7 @@ EXPLANATION = (
     ' (R7) both operands of every pattern/value zip in the matcher are plain forward iterators, and the suffix patterns are paired with the slice starting at len - suffix.len().'
     ' (R8) each match arm / function arm is tried against its own scratch environment; (R9) every *NonExhaustive* error is skipped only under an `arms.any(matches!(arm.pattern, Pattern::Wildcard))` flag - no wider catch-all predicate.'
     ' (R10) broadcasting a scalar function over a matrix applies it to every element of matrix_like_values(source) in storage order (one push per element, errors propagated) and reassembles with (shape[0], shape[1]) of the source.'
-    ' (R12) the comparison-mode constant that reaches the pattern matcher from the function-arm selector and from the state-machine arms (explicitly or through mode-less wrappers) is one '
+    ' (R12) the comparison-mode constant that reaches the pattern matcher from the function-arm selector, from the state-machine arms and from the match-expression arms (explicitly or through mode-less wrappers) is one '
     'under which every verdict the matcher makes from an evaluated expression pattern or a repeated variable depends on the matched value (finite table over the variants of the mode enum, '
     'path conditions evaluated per variant), every recursive matcher call hands on its own mode parameter, and all match-expression sites use one mode; which arm then runs for which argument '
     '(the behaviour itself) is not decided.'
